@@ -96,7 +96,7 @@ def run(ctx: Ctx) -> None:
         xs = [base + 7 * ji % 900 + 11 * k + 1 for k in range(len(s["script"]) + 1)]
         res = W.run_script(by_name, pairs[tr], sp, impl, cp, slog, s["script"], xs, timeout=4.0)
         if res["hung"]:
-            res2 = W.run_script(by_name, pairs[tr], sp, impl, cp, slog, s["script"], xs, timeout=10.0)
+            res2 = W.run_script(by_name, pairs[tr], sp, impl, cp, slog, s["script"], xs, timeout=25.0)
             if not res2["hung"]:
                 res = res2
             else:
